@@ -80,11 +80,14 @@ func c04Seeds(c *ev.Ctx) []xzSeed {
 		}
 	}
 	// multi-stream seeds (universal part only): damage behind the first stream
-	for i := 0; i < 2; i++ {
+	for i := 0; i < 3; i++ {
 		d1, d2 := gen.Data(r, "text", r.Range(50, 300)), gen.Data(r, "lowent", r.Range(50, 300))
 		b := libWriteXZ(xz.WriterConfig{DictCap: 4096, CheckSum: xz.CRC32}, d1)
-		b = append(b, make([]byte, 4*i)...)
+		b = append(b, make([]byte, []int{0, 4, 12}[i])...)
 		b = append(b, libWriteXZ(xz.WriterConfig{DictCap: 4096, CheckSum: xz.CRC64}, d2)...)
+		if i == 2 {
+			b = append(b, make([]byte, 8)...) // trailing padding
+		}
 		content := append(append([]byte{}, d1...), d2...)
 		if o, ss, err := ref.DecodeXZ(b, 0); err == nil && len(ss) == 2 && bytes.Equal(o, content) {
 			out = append(out, xzSeed{Multi: true, ID: fmt.Sprintf("multi%d", i), B: b, Content: content, S: ss[0], Check: ss[0].Check, Feat: "two streams"})
@@ -574,6 +577,15 @@ func checkC04(c *ev.Ctx) {
 				l    []int
 			}{"block-exact", append(ex, 1<<16)})
 		}
+		// ... and from one of the concrete source types of production (structure-changing
+		// modifications always, bit flips and bursts every fourth)
+		if j.kind != "flip" && j.kind != "burst" && j.kind != "sealflip" || i%4 == 0 {
+			kinds := []string{"bufio4096", "file", "bufio16", "pipe", "bufio-exact", "pipe0"}
+			scheds = append(scheds, struct {
+				name string
+				l    []int
+			}{"source:" + kinds[(i+j.arg)%len(kinds)], nil})
+		}
 		for si, sc := range scheds {
 			if c04Judge(c, s, j.kind, j.arg, j.bi, id, name, mod, sc.name, sc.l, si == 0, edits) {
 				break
@@ -713,7 +725,11 @@ func sealRegions(s *xzSeed) []sealRegion {
 // c04Judge reads one modified stream under one schedule of buffer lengths and applies the
 // oracle; it returns true when a violation was reported (further schedules are skipped).
 func c04Judge(c *ev.Ctx, s *xzSeed, kind string, arg, bi int, id, name string, mod []byte, schedName string, sched []int, first bool, edits []xzEdit) (violated bool) {
-	out, cerr, rerr, after, pn := openReadSchedAfter("xz", mod, 0, sched)
+	srcKind := ""
+	if strings.HasPrefix(schedName, "source:") {
+		srcKind = schedName[len("source:"):]
+	}
+	out, cerr, rerr, after, pn := openReadSchedAfter("xz", mod, 0, sched, srcKind)
 	if first {
 		c.Eval(id, true)
 		c.Count("mod:"+classOf(name), 1)
